@@ -82,7 +82,9 @@ def run_unit(uname, tier, prop):
         R.undecided.append("extraction: %s" % e)
         return R
     R.uf = uf
-    gdir = os.path.join(CACHE, "gen" + os.environ.get("VERIF_CACHE_SUFFIX", ""))
+    # one directory per property: two properties that share a unit (C14/C15, C08/C25, ...) may be
+    # checked concurrently without racing on the generated file
+    gdir = os.path.join(CACHE, "gen" + os.environ.get("VERIF_CACHE_SUFFIX", ""), prop)
     os.makedirs(gdir, exist_ok=True)
     path = os.path.join(gdir, "%s.rs" % uname)
     text = uf.text()
